@@ -129,6 +129,8 @@ def _plan(tier):
     P.append(("trial", dict(table="e+e", n=2, default="none", molecular=False, with_disp=True), R))
     P.append(("trial", dict(table="e", n=2, default="none", molecular=False, with_disp=True, check=True), R + ("failed",)))
     P.append(("trial", dict(table="e", n=2, default="five", molecular=False, with_disp="nested"), R))
+    P.append(("trial", dict(table="swap", n=2, default="five", molecular=False, with_disp=True), ("rejected", "accepted")))
+    P.append(("trial", dict(table="swap", n=3, default="none", molecular=True, with_disp=True), ("rejected", "accepted")))
     if not q:
         P.append(("trial", dict(table="e", n=3, default="zero", molecular=True, with_disp=True), R))
         P.append(("trial", dict(table="e2", n=3, default="five", molecular=False, with_disp=True), R))
